@@ -6,6 +6,7 @@ import OrdModel.Proofs.IndexSatsTx
 import OrdModel.Index.Run
 import OrdModel.Proofs.IndexSatsWitness
 import OrdModel.Proofs.IndexLiftSatBlock
+import OrdModel.Proofs.IndexLiftSatExactChain
 /-!
 # C02 — every mined sat is in exactly one place and all sat lookups agree
 
@@ -223,6 +224,37 @@ theorem c02_block_preserves_partition (cfg : Cfg) (hs : cfg.indexSats = true) (s
     (h : applyBlock cfg st blk = .ok (st', evs)) : SatsPartitioned st' ∧ st'.height = st.height + 1 :=
   applyBlock_partition_full cfg hs st blk st' evs hh inv h
 
+/-- **Exact partition**: on a chain without duplicate txids (`ChainFresh`: every block has a
+coinbase, txids are non-zero, pairwise distinct and never reused) nothing is ever displaced,
+so in every reachable state the sats held by the table — null outpoint included — are not only
+pairwise distinct but *all* of `0 … startingSat height − 1`: a permutation of the sats mined so
+far.  Any configuration with the sat index on. -/
+theorem c02_reachable_exact (cfg : Cfg) (hs : cfg.indexSats = true)
+    (chain : List Block) (hc : ChainHeights chain) (hf : ChainFresh [] chain) (st : State) (evs : List Event)
+    (h : run cfg chain = .ok (st, evs)) :
+    (allSats st.utxo).Nodup ∧ (allSats st.utxo).Perm (List.range (startingSat st.height)) ∧
+    WF (allRanges st.utxo) ∧ st.height = chain.length := by
+  obtain ⟨inv, hl⟩ := reachable_exact cfg hs chain hc hf st evs h
+  exact ⟨inv.nodup, inv.perm, inv.wf, hl⟩
+
+/-- … hence every sat mined so far is found, at its place, and no other. -/
+theorem c02_reachable_find_mined (cfg : Cfg) (hs : cfg.indexSats = true)
+    (chain : List Block) (hc : ChainHeights chain) (hf : ChainFresh [] chain) (st : State) (evs : List Event)
+    (h : run cfg chain = .ok (st, evs)) (sat : Nat) (hm : sat < startingSat st.height) :
+    ∃ p, find st sat = .ok (some p) ∧ SatAt st.utxo sat p ∧ ∀ q, SatAt st.utxo sat q → q = p := by
+  obtain ⟨inv, _⟩ := reachable_exact cfg hs chain hc hf st evs h
+  obtain ⟨p, h1, h2⟩ := c02_find_mined_found st inv sat hm
+  exact ⟨p, h1, h2, fun q hq => c02_place_unique st inv.toSatsPartitioned sat q p hq h2⟩
+
+/-- One block step of the exact invariant: fresh txids, nothing displaced. -/
+theorem c02_block_preserves_exact (cfg : Cfg) (hs : cfg.indexSats = true) (st : State) (blk : Block)
+    (seen : List Txid) (st' : State) (evs : List Event) (hh : blk.height = st.height)
+    (inv : SatsPartitionedExact st) (hprov : TblProv seen st.utxo) (hb : BlockFresh seen blk)
+    (h : applyBlock cfg st blk = .ok (st', evs)) :
+    SatsPartitionedExact st' ∧ TblProv (blk.txs.map (·.txid) ++ seen) st'.utxo :=
+  let r := applyBlock_exact cfg hs st blk seen st' evs hh inv hprov hb h
+  ⟨r.1, r.2.1⟩
+
 /-- (kept for the record: the earlier version with the inscription and rune indexes off; now a
 corollary of `c02_reachable_partitioned`) -/
 theorem c02_reachable_partitioned_partial (cfg : Cfg) (hs : cfg.indexSats = true)
@@ -309,6 +341,10 @@ inscription, rune, address and transaction indexes all enabled (the chain is acc
 def allOnCfg : Cfg := ⟨true, true, true, true, true, 0, 0, 0⟩
 set_option maxRecDepth 100000 in
 example : allOnCfg.indexSats = true ∧ (stateAfter allOnCfg dupCoinbaseChain).isSome = true := by decide
+
+/-- the first two blocks of the witness chain have distinct non-zero txids (the third repeats 7) -/
+example : ChainFresh [] (dupCoinbaseChain.take 2) := by
+  refine ⟨⟨?_, ?_, ?_, ?_⟩, ⟨?_, ?_, ?_, ?_⟩, trivial⟩ <;> simp [dupCoinbaseChain, coinbaseTx]
 
 example : SatsPartitioned ({} : State) := satsPartitioned_empty.toSatsPartitioned
 example : partitionOracle 1 [⟨⟨1, 0⟩, 5000000000, [(0, 5000000000)]⟩] [] = true := by
